@@ -132,3 +132,84 @@ Proof.
   cbn [alone]. unfold diagnostics. induction (parse_file e src p stmts []) as [|r rs IH]; cbn [map flat_map]; [reflexivity|].
   rewrite IH. destruct r; reflexivity.
 Qed.
+
+(** * the run as a whole: compile_queries *)
+Lemma parse_file_keeps_err e src p m raw : forall stmts seen,
+  parse_query e raw src p = Err m -> In raw stmts -> In (Err m) (parse_file e src p stmts seen).
+Proof.
+  induction stmts as [|r0 rest IH]; intros seen Hq Hin; [destruct Hin|].
+  cbn [parse_file]. destruct Hin as [<-|Hin].
+  - rewrite Hq. left. reflexivity.
+  - destruct (parse_query e r0 src p) as [[q|]|m0|m0].
+    + destruct (negb (String.eqb (q_name q) "") && mem_str (q_name q) seen); right; apply IH; assumption.
+    + right. apply IH; assumption.
+    + right. apply IH; assumption.
+    + right. apply IH; assumption.
+Qed.
+
+Lemma parse_files_keeps_err e p name src stmts m raw fs2 : forall fs1 seen,
+  parse_query e raw src p = Err m -> In raw stmts ->
+  In (name, Err m) (parse_files e p (fs1 ++ (name, src, stmts) :: fs2) seen).
+Proof.
+  induction fs1 as [|[[n0 s0] st0] fs1 IH]; intros seen Hq Hin; cbn [app parse_files]; apply in_or_app.
+  - left. apply in_map. apply (parse_file_keeps_err e src p m raw); assumption.
+  - right. apply IH; assumption.
+Qed.
+
+Lemma diagnostics_in {A} (rs : list (string * result A)) name m : In (name, Err m) rs -> In (name, m) (diagnostics rs).
+Proof.
+  unfold diagnostics. intro H. apply in_flat_map. exists (name, Err m). split; [exact H|]. left. reflexivity.
+Qed.
+
+(** a failing statement in ANY file at ANY position makes the whole package fail,
+    whatever the other files and statements are *)
+Theorem failing_statement_fails_package e p name src stmts m raw fs1 fs2 :
+  parse_query e raw src p = Err m -> In raw stmts ->
+  compile_queries e p (fs1 ++ (name, src, stmts) :: fs2) = Err "multierr".
+Proof.
+  intros Hq Hin. unfold compile_queries.
+  pose proof (diagnostics_in _ _ _ (parse_files_keeps_err e p name src stmts m raw fs2 fs1 [] Hq Hin)) as Hd.
+  destruct (diagnostics (parse_files e p (fs1 ++ (name, src, stmts) :: fs2) [])); [destruct Hd|reflexivity].
+Qed.
+
+(** an accepted package has no diagnostic at all *)
+Theorem accepted_no_diagnostics e p files qs :
+  compile_queries e p files = Ok qs -> diagnostics (parse_files e p files []) = [] /\ qs = queries_of (parse_files e p files []) /\ qs <> [].
+Proof.
+  unfold compile_queries. destruct (diagnostics (parse_files e p files [])); [|discriminate].
+  destruct (queries_of (parse_files e p files [])) eqn:Hq; [discriminate|].
+  intro H. injection H as <-. repeat split. discriminate.
+Qed.
+
+(** the names accepted so far are pairwise distinct *)
+Lemma parse_file_names_nodup e src p : forall stmts seen,
+  NoDup seen -> NoDup (names_of (parse_file e src p stmts seen) ++ seen).
+Proof.
+  induction stmts as [|raw rest IH]; intros seen Hs; cbn [parse_file names_of flat_map app]; [exact Hs|].
+  destruct (parse_query e raw src p) as [[q|]|m|m]; try (cbn [flat_map app]; apply IH; exact Hs).
+  destruct (String.eqb (q_name q) "") eqn:Hn; cbn [negb andb flat_map].
+  - rewrite Hn. cbn [app]. apply IH. exact Hs.
+  - destruct (mem_str (q_name q) seen) eqn:Hm; cbn [flat_map app].
+    + apply IH. exact Hs.
+    + rewrite Hn. cbn [app].
+      assert (Hs' : NoDup (q_name q :: seen)).
+      { constructor; [|exact Hs]. apply mem_str_false. exact Hm. }
+      specialize (IH (q_name q :: seen) Hs').
+      (* names ++ (n :: seen)  ~  n :: names ++ seen *)
+      apply NoDup_remove in IH as [IH1 IH2]. constructor; [exact IH2 | exact IH1].
+Qed.
+
+Theorem parse_files_names_nodup e p : forall files seen,
+  NoDup seen -> NoDup (names_of (map snd (parse_files e p files seen)) ++ seen).
+Proof.
+  induction files as [|[[name src] stmts] rest IH]; intros seen Hs; cbn [parse_files map names_of flat_map app]; [exact Hs|].
+  rewrite map_app, map_map. cbn [snd]. rewrite map_id.
+  unfold names_of at 1. rewrite flat_map_app. fold (names_of (parse_file e src p stmts seen)).
+  fold (names_of (map snd (parse_files e p rest (names_of (parse_file e src p stmts seen) ++ seen)))).
+  specialize (IH (names_of (parse_file e src p stmts seen) ++ seen) (parse_file_names_nodup e src p stmts seen Hs)).
+  (* IH : NoDup (B ++ A ++ seen); goal : NoDup ((A ++ B) ++ seen) *)
+  set (A := names_of (parse_file e src p stmts seen)) in *.
+  set (B := names_of (map snd (parse_files e p rest (A ++ seen)))) in *.
+  apply (Permutation.Permutation_NoDup (l := B ++ A ++ seen)); [|exact IH].
+  rewrite <- app_assoc. rewrite !app_assoc. apply Permutation.Permutation_app_tail. apply Permutation.Permutation_app_comm.
+Qed.
